@@ -158,6 +158,12 @@ def structured_inputs(d: int):
     ins.append(("unbalanced-close", org + ".db 1\n" + "}\n" * d))
     ins.append(("comment-run", org + "/* a */\n" * d + "; c\n" * d + "nop ; x\n" * d))
     ins.append(("string-with-escapes", org + ".ascii '" + "\\'" * d + "'\n.text '" + "a" * d + "\n"))
+    # block arguments that splice themselves (the argument is expanded inside the application, where the parameter names the
+    # argument itself), directly, through a second parameter, and with other statements around: a reported failure, not a spin
+    ins.append(("self-splicing-argument", org + ".macro m_w(p_b) {\n{{p_b}}\n}\nm_w({\n{{p_b}}\n})\n"))
+    ins.append(("self-splicing-argument-with-code", org + ".macro m_w(p_b) {\n.db 1\n{{p_b}}\n}\nm_w({\n.db 2\n{{p_b}}\n.db 3\n})\n"))
+    ins.append(("mutually-splicing-arguments", org + ".macro m_w(p_b, p_c) {\n{{p_b}}\n}\nm_w({\n{{p_c}}\n}, {\n{{p_b}}\n})\n"))
+    ins.append(("self-splicing-argument-in-include", org + ".macro m_w(p_b) {\n{{p_b}}\n}\nm_w({\n.include 'splice15.s'\n})\n"))
     ins.append(("nested-code-arguments", org + ".macro m_c(p) {\n{{p}}\n}\n" + "m_c({\n" * min(d, 20) + ".db k_out\n" + "})\n" * min(d, 20)))
     return ins
 
@@ -175,6 +181,8 @@ def _stage_aux() -> None:
              "empty.ips": {"hex": ""}}
     for nm in ODD_NAMES:
         files[nm] = {"hex": "a1b2c3"}
+    files["splice15.s"] = "{{p_b}}\n"
+
     driver.write_files(files)
 
 
